@@ -42,6 +42,11 @@ func c04Accounts(cfg map[string]int) []c04Acct {
 	var as []c04Acct
 	for i := 0; i < cfg["accounts"]; i++ {
 		login := fmt.Sprintf("user%d%s", i, randText(rng, rng.Intn(6)))
+		if i%3 == 1 {
+			// logins are byte strings: characters outside ASCII, and a byte pair that means one character in UTF-8
+			// and two others in Mac Roman (the text encoding of the protocol's era)
+			login += []string{"\xc3\xa9", "\xe2\x88\x86x", " \xc6\x92", "\xc3\xab\xc3\xab"}[(cfg["acctseed"]/2+i)%4]
+		}
 		n := []int{0, 1, 5, 8, 40, 72}[rng.Intn(6)]
 		pw := make([]byte, n)
 		rng.Read(pw)
